@@ -56,6 +56,7 @@ def repo_fingerprint():
         for name in sorted(files):
             with open(os.path.join(root, name), "rb") as f:
                 h.update(f.read())
+    h.update(repr(sorted(CLOCK_PATCHES.items())).encode())
     return h.hexdigest()[:16]
 
 
@@ -66,7 +67,8 @@ CLOCK_PATCHES = {
     "main.go": [("return float64(time.Now().UnixNano()) / float64(time.Second)", "return float64(verifNow().UnixNano()) / float64(time.Second)", 1)],
     "datastoreset.go": [("float64(time.Now().Unix()-MinFullScanInterval)", "float64(verifNow().Unix()-MinFullScanInterval)", 1),
                         ('time.Now().Format("4")', 'verifNow().Format("4")', 1)],
-    "peer.go": [('time.Now().Format("4")', 'verifNow().Format("4")', 2)],
+    "peer.go": [('time.Now().Format("4")', 'verifNow().Format("4")', 2),
+                ("diff := time.Since(ts)", "diff := verifNow().Sub(ts)", 1)],
 }
 
 
@@ -247,11 +249,25 @@ def panic_excerpt(err):
     return ("\n".join(keep[:3]) + "\n" + stack)[:1800]
 
 
+OBSERVATION_OPS = ("query", "session")
+WORLD_START_OPS = ("dataset", "world")
+
+
+def _prefix_for(lines, idx):
+    """the context (non-observation) lines from the last world start up to, not including, position idx"""
+    start = 0
+    for i in range(idx, -1, -1):
+        if lines[i].get("op") in WORLD_START_OPS:
+            start = i
+            break
+    return [l for l in lines[start:idx] if l.get("op") not in OBSERVATION_OPS]
+
+
 def run_impl(binary, lines, scratch, timeout=600):
     """feed JSON lines to lmdharness.  lmd's worker goroutines end a panic with os.Exit *after* releasing
     the request's wait group, so the process may die a few cases after the one that panicked: on a
-    crash the last few started cases are re-run alone (dataset + case) to find the culprit, the rest
-    continues in a fresh process.  Returns {id: result}."""
+    crash the last few started cases are re-run alone (with the context lines of their world) to find
+    the culprit, the rest continues in a fresh process.  Returns {id: result}."""
     results = {}
     pending = list(lines)
     guard = 0
@@ -259,59 +275,50 @@ def run_impl(binary, lines, scratch, timeout=600):
         guard += 1
         rc, res, err, timed_out = _run_once(binary, pending, scratch, timeout)
         if rc == 0 and not timed_out:
-            results.update(res)
+            for k, r in res.items():
+                results.setdefault(k, r)
             break
         if os.environ.get("VERIF_DEBUG"):
             open("/scratch/impl_err_%d.log" % guard, "w").write(err)
             sys.stderr.write("run_impl: rc=%s timed_out=%s\n" % (rc, timed_out))
         started = [int(m.group(1)) for m in re.finditer(r"@start (\d+)", err)]
+        pos = {l["id"]: i for i, l in enumerate(pending) if "id" in l}
+        started = [s for s in started if s in pos]
         if not started:
             for l in pending:
-                if l.get("op") != "dataset" and l["id"] not in results:
+                if l.get("op") not in WORLD_START_OPS and l.get("id") not in results:
                     results[l["id"]] = {"id": l["id"], "crash": True, "stderr": panic_excerpt(err) or err[-1500:], "outside_case": True}
             break
         suspects = started[-4:]
-        first_suspect = suspects[0]
-        # results before the suspects are trustworthy
+        first_suspect_pos = pos[suspects[0]]
         for cid, r in res.items():
-            if isinstance(cid, tuple) or cid < first_suspect:
-                results[cid] = r
-        # index the pending lines
-        ds_of = {}
-        ds = None
-        line_of = {}
-        for l in pending:
-            if l.get("op") == "dataset":
-                ds = l
-            else:
-                ds_of[l["id"]] = ds
-                line_of[l["id"]] = l
+            if isinstance(cid, tuple) or (cid in pos and pos[cid] < first_suspect_pos):
+                results.setdefault(cid, r)
+        poisoned_from = None
         for sid in suspects:
-            solo = [ds_of[sid], line_of[sid]] if ds_of.get(sid) is not None else [line_of[sid]]
-            rc1, res1, err1, to1 = _run_once(binary, solo, scratch, min(timeout, 120))
+            if sid in results:
+                continue
+            i = pos[sid]
+            solo = _prefix_for(pending, i) + [pending[i]]
+            rc1, res1, err1, to1 = _run_once(binary, solo, scratch, min(timeout, 180))
             if rc1 == 0 and not to1 and sid in res1:
                 results[sid] = res1[sid]
             else:
                 results[sid] = {"id": sid, "crash": True, "timeout": to1, "stderr": panic_excerpt(err1) or err1[-1500:]}
-        # continue after the last started case
-        last = started[-1]
-        rest = []
-        seen = False
-        ds = None
-        for l in pending:
-            if l.get("op") == "dataset":
-                ds = l
-                if seen:
-                    rest.append(l)
-                continue
-            if l["id"] == last:
-                seen = True
-                if ds is not None:
-                    rest.append(ds)
-                continue
-            if seen:
-                rest.append(l)
-        pending = rest
+                if pending[i].get("op") not in OBSERVATION_OPS and poisoned_from is None:
+                    poisoned_from = i     # a context step crashed: the rest of this world cannot be continued
+        last_pos = pos[started[-1]]
+        if poisoned_from is not None:
+            # skip to the next world start
+            j = poisoned_from + 1
+            while j < len(pending) and pending[j].get("op") not in WORLD_START_OPS:
+                if "id" in pending[j] and pending[j]["id"] not in results:
+                    results[pending[j]["id"]] = {"id": pending[j]["id"], "skipped": True, "error": "an earlier step of this world crashed"}
+                j += 1
+            pending = pending[j:]
+            continue
+        rest = pending[last_pos + 1:]
+        pending = _prefix_for(pending, last_pos + 1) + rest if rest else []
     return results
 
 
